@@ -170,6 +170,7 @@ pub fn main(spec_path: &str) {
     let mut signals = false;
     let mut max_hist = 100usize;
     let mut printer = false;
+    let mut pause = false;
     let mut binds: Vec<(Vec<KeyEvent>, Cmd)> = Vec::new();
     for l in spec.lines() {
         let t: Vec<&str> = l.split_whitespace().collect();
@@ -207,6 +208,7 @@ pub fn main(spec_path: &str) {
             "signals" => signals = t[1] == "1",
             "max_hist" => max_hist = t[1].parse().unwrap(),
             "printer" => printer = t[1] == "1",
+            "pause" => pause = t[1] == "1",
             "bind" => binds.push((parse_keys(t[1]), parse_cmd(&t[2..]))),
             _ => panic!("spec line {l}"),
         }
@@ -257,6 +259,12 @@ pub fn main(spec_path: &str) {
             Some(Err(_)) => "R err:other".to_owned(),
         };
         logln(&log, &line);
+        if pause {
+            // let the driver look at (and change) the terminal settings between two reads
+            unsafe {
+                libc::raise(libc::SIGSTOP);
+            }
+        }
         if line == "R eof" && i + 1 < reads {
             // keep reading: the driver decides when to stop
         }
